@@ -43,12 +43,20 @@ Definition instr_def (i : instr) : list positive :=
 
 Definition is_phi (i : instr) : bool := match i with IPhi _ _ => true | _ => false end.
 
-(* walk the non-phi part of a block; None = some operand not available (or a phi after a non-phi) *)
+Definition is_term (i : instr) : bool :=
+  match i with
+  | IJump | IIf _ | ISwitch _ _ | IReturn _ | IPanic _ | IUnreachable => true
+  | _ => false
+  end.
+
+(* walk the non-phi part of a block; None = some operand not available, a phi after a non-phi,
+   or an instruction after a terminator *)
 Fixpoint check_code (avail : regset) (code : list instr) : option regset :=
   match code with
   | [] => Some avail
   | i :: r =>
     if is_phi i then None
+    else if is_term i && negb (match r with [] => true | _ => false end) then None
     else if forallb (operand_ok avail) (instr_uses i) then check_code (instr_def i ++ avail) r else None
   end.
 
@@ -91,18 +99,27 @@ Fixpoint safe_prefix_defs (code : list instr) : regset :=
   | _ => []
   end.
 
+Definition no_phis (b : block) : bool :=
+  match b_code b with IPhi _ _ :: _ => false | _ => true end.
+
 Definition recover_ok (fn : func) (ins : list regset) : bool :=
   match fn_recover fn with
   | None => true
   | Some rb =>
-    match get_block fn 0 with
-    | Some b0 => subset (block_in ins rb) (safe_prefix_defs (b_code b0) ++ entry_set fn)
-    | None => false
+    match get_block fn 0, get_block fn rb with
+    | Some b0, Some br => no_phis br && subset (block_in ins rb) (safe_prefix_defs (b_code b0) ++ entry_set fn)
+    | _, _ => false
     end
   end.
 
+Definition entry_ok (fn : func) (ins : list regset) : bool :=
+  match get_block fn 0 with
+  | Some b0 => no_phis b0 && subset (block_in ins 0) (entry_set fn)
+  | None => false
+  end.
+
 Definition validate (fn : func) (ins : list regset) : bool :=
-  subset (block_in ins 0) (entry_set fn) && recover_ok fn ins && check_blocks fn ins (fn_blocks fn) 0.
+  entry_ok fn ins && recover_ok fn ins && check_blocks fn ins (fn_blocks fn) 0.
 
 (* ---- certificate computation (untrusted) ---- *)
 
